@@ -631,6 +631,24 @@ func (g *Gen) genFamily(fam string) (Op, bool) {
 				axes[0] = d + 1
 			}
 		}
+		if r.Intn(6) == 0 {
+			// norms whose intermediate values stay small integers (squares, absolute values, counts)
+			na := g.pick(and(isDt(floatDts...), smallInts, func(t *tensor.Dense) bool { return t.Dims() > 0 }))
+			if na >= 0 {
+				nt := w.get(na)
+				var nax []int
+				switch r.Intn(3) {
+				case 1:
+					nax = []int{r.Intn(nt.Dims())}
+				case 2:
+					if nt.Dims() >= 2 {
+						pm := g.perm(nt.Dims())
+						nax = pm[:2]
+					}
+				}
+				return Op{Name: "Norm", In: []int{na}, N: r.Intn(7), I: nax, Out: g.newSlot()}, true
+			}
+		}
 		switch r.Intn(8) {
 		case 0, 1:
 			return Op{Name: "Sum", In: []int{a}, I: axes, Out: g.newSlot()}, true
